@@ -194,6 +194,88 @@ def gen_reservoir():
             m.defined["ideal_alpha_scaled"]["ret"] = "list"
         m.defined["build_matrix"]["ret"] = 3
         P.Tr(m, fn, emit_name=name, kinds=kinds, cut_before=is_solve, ret_names=["a_matrix", "b"]).translate()
+    # ---- the rest of the loop body: the iterative solve and what is stored.  Expected shape (anything else fails closed):
+    #     nxt, info = sparse.linalg.bicgstab(a_matrix, b, atol=<const>, rtol=<const>)
+    #     if <test over info and _is_solved(a_matrix, nxt, b)>:
+    #         nxt = sparse.linalg.spsolve(a_matrix.tocsc(), b)
+    # emitted: the tolerances handed to the solver, and <test> as a boolean function of the flag and of the residual test's outcome
+    def const_term(node, what):
+        if isinstance(node, ast.Name) and node.id in m.consts:
+            node = m.consts[node.id]
+        if isinstance(node, ast.Constant) and isinstance(node.value, (int, float)) and not isinstance(node.value, bool):
+            return P.lit(node.value)
+        raise P.Untranslatable(f"{what}: {ast.unparse(node)} is not a numeric module constant")
+
+    def bexp(node, cls):
+        if isinstance(node, ast.BoolOp):
+            f = "orb" if isinstance(node.op, ast.Or) else "andb"
+            t = bexp(node.values[0], cls)
+            for v in node.values[1:]:
+                t = f"({f} {t} {bexp(v, cls)})"
+            return t
+        if isinstance(node, ast.UnaryOp) and isinstance(node.op, ast.Not):
+            return f"(negb {bexp(node.operand, cls)})"
+        if isinstance(node, ast.Compare) and len(node.ops) == 1 and isinstance(node.left, ast.Name) and node.left.id == "info":
+            c = node.comparators[0]
+            if isinstance(c, ast.UnaryOp) and isinstance(c.op, ast.USub) and isinstance(c.operand, ast.Constant):
+                c = ast.Constant(value=-c.operand.value)
+            if not (isinstance(c, ast.Constant) and isinstance(c.value, int) and not isinstance(c.value, bool)):
+                raise P.Untranslatable(f"{cls}.simulate: the flag is compared with {ast.unparse(node.comparators[0])}")
+            k = f"({c.value})%Z"
+            op = type(node.ops[0])
+            tbl = {ast.NotEq: f"(negb (Z.eqb info {k}))", ast.Eq: f"(Z.eqb info {k})", ast.Gt: f"(Z.ltb {k} info)", ast.Lt: f"(Z.ltb info {k})",
+                   ast.GtE: f"(Z.leb {k} info)", ast.LtE: f"(Z.leb info {k})"}
+            if op not in tbl:
+                raise P.Untranslatable(f"{cls}.simulate: comparison {ast.unparse(node)}")
+            return tbl[op]
+        if isinstance(node, ast.Call) and ast.unparse(node).replace(" ", "") == "_is_solved(a_matrix,nxt,b)":
+            return "solved"
+        raise P.Untranslatable(f"{cls}.simulate: the acceptance test contains {ast.unparse(node)}")
+
+    accept_out = []
+    for cls, tag in (("IdealReservoir", "ideal"), ("SinglePhaseReservoir", "single")):
+        body = loop_body(cls)
+        at = [i for i, st in enumerate(body) if is_solve(st)]
+        if len(at) != 1:
+            raise P.Untranslatable(f"{cls}.simulate: expected exactly one iterative solve in the time loop")
+        tail = body[at[0]:]
+        sv = tail[0]
+        if not (len(sv.targets) == 1 and ast.unparse(sv.targets[0]).replace(" ", "") in ("(nxt,info)", "nxt,info")):
+            raise P.Untranslatable(f"{cls}.simulate: the solve is not `pseudopressure[i + 1], info = ...` ({ast.unparse(sv.targets[0])}): the convergence flag is not kept")
+        call = sv.value
+        if not (isinstance(call, ast.Call) and ast.unparse(call.func) == "sparse.linalg.bicgstab" and [ast.unparse(a) for a in call.args] == ["a_matrix", "b"]):
+            raise P.Untranslatable(f"{cls}.simulate: unexpected solver call {ast.unparse(call)}")
+        kw = {k.arg: k.value for k in call.keywords}
+        if set(kw) - {"atol", "rtol"}:
+            raise P.Untranslatable(f"{cls}.simulate: solver options {sorted(set(kw) - {'atol', 'rtol'})} are not modelled")
+        atol = const_term(kw["atol"], "atol") if "atol" in kw else "0"
+        rtol = const_term(kw["rtol"], "rtol") if "rtol" in kw else "(1 / 100000)"        # scipy's default
+        if len(tail) != 2 or not isinstance(tail[1], ast.If) or tail[1].orelse or \
+                [ast.unparse(n).replace(" ", "") for n in tail[1].body] != ["nxt=sparse.linalg.spsolve(a_matrix.tocsc(),b)"]:
+            raise P.Untranslatable(f"{cls}.simulate: after the iterative solve the loop is not `if <test>: pseudopressure[i + 1] = spsolve(a_matrix.tocsc(), b)`")
+        accept_out.append(f"(* {cls}.simulate: tolerances handed to bicgstab, and the test under which the direct solve replaces its iterate *)\n"
+                          f"Definition {tag}_solver_atol : R := {atol}.\nDefinition {tag}_solver_rtol : R := {rtol}.\n"
+                          f"Definition {tag}_falls_back (info : Z) (solved : bool) : bool := {bexp(tail[1].test, cls)}.")
+    # _is_solved(a_matrix, x, b): `return norm(a_matrix @ x - b) <= <arithmetic over constants and norm(b)>`
+    isf = m.funcs.get("_is_solved")
+    if isf is None or [a.arg for a in isf.args.args] != ["a_matrix", "x", "b"]:
+        raise P.Untranslatable("_is_solved(a_matrix, x, b) not found")
+    stm = [n for n in isf.body if not (isinstance(n, ast.Expr) and isinstance(n.value, ast.Constant))]
+    if not (len(stm) == 1 and isinstance(stm[0], ast.Return) and isinstance(stm[0].value, ast.Compare) and len(stm[0].value.ops) == 1
+            and isinstance(stm[0].value.ops[0], (ast.LtE, ast.Lt)) and ast.unparse(stm[0].value.left).replace(" ", "") == "np.linalg.norm(a_matrix@x-b)"):
+        raise P.Untranslatable("_is_solved: not `return np.linalg.norm(a_matrix @ x - b) <= ...`")
+
+    def rexp(node):
+        if ast.unparse(node).replace(" ", "") == "np.linalg.norm(b)":
+            return "b_norm"
+        if isinstance(node, ast.BinOp) and isinstance(node.op, (ast.Add, ast.Sub, ast.Mult)):
+            return f"({rexp(node.left)} {'+' if isinstance(node.op, ast.Add) else '-' if isinstance(node.op, ast.Sub) else '*'} {rexp(node.right)})"
+        return const_term(node, "_is_solved")
+    cmp_ = "Rle_dec" if isinstance(stm[0].value.ops[0], ast.LtE) else "Rlt_dec"
+    accept_out.append("(* _is_solved: res_norm stands for ||A x - b||, b_norm for ||b|| (2-norms) *)\n"
+                      f"Definition is_solved (res_norm b_norm : R) : bool := if {cmp_} res_norm {rexp(stm[0].value.comparators[0])} then true else false.")
+    m.out.append("\n".join(accept_out) + "\n")
+    m.uses_z = True
     # ---- the part of SinglePhaseReservoir.simulate before the time loop: schedule handling (None -> constant; a length that
     # differs from len(time) raises) and the initial profile.  Two shapes: schedule None / a float array.
     sim = m.method("SinglePhaseReservoir", "simulate")
